@@ -404,17 +404,22 @@ Definition seq_obs (a b : obs) : obs :=
   mkObs (o_res a ++ o_res b) (o_wake a ++ o_wake b) (o_val a ++ o_val b)
         (o_probe b) (o_term b) (o_queue b) (o_alloc a + o_alloc b).
 
+(* the caller cannot see whether it held the last handle, only whether the channel got closed *)
+Definition with_res (r : list N) (o : obs) : obs :=
+  mkObs r (o_wake o) (o_val o) (o_probe o) (o_term o) (o_queue o) (o_alloc o).
+
 Definition drop_sender (s : state) : state * obs :=
   let '(s1, o1) := step_c s DropSenderDec in
-  if Nat.ltb 0 (pend_sclose s1) then let '(s2, o2) := step_c s1 DropSenderClose in (s2, seq_obs o1 o2)
-  else (s1, o1).
+  if Nat.ltb 0 (pend_sclose s1) then
+    let '(s2, o2) := step_c s1 DropSenderClose in (s2, with_res (o_res o2) (seq_obs o1 o2))
+  else (s1, with_res [R_FALSE] o1).
 
 Definition drop_receiver (s : state) : state * obs :=
   let '(s1, o1) := step_c s DropReceiverDec in
   if Nat.ltb 0 (pend_rclose s1) then
     let '(s2, o2) := step_c s1 DropReceiverClose in
-    let '(s3, o3) := step_c s2 DropReceiverClear in (s3, seq_obs (seq_obs o1 o2) o3)
-  else (s1, o1).
+    let '(s3, o3) := step_c s2 DropReceiverClear in (s3, with_res (o_res o2) (seq_obs (seq_obs o1 o2) o3))
+  else (s1, with_res [R_FALSE] o1).
 
 Definition mstep (s : state) (l : list N) : state * obs :=
   match l with
